@@ -68,21 +68,30 @@ func VerifH_SimpleIndex() {
 func VerifH_SearchIndex() {
 	n := symx.Param("shards", 73)
 	r := NewReMap(WithPrime(uint64(n)))
-	symx.Assert(len(r.nps) == n && r.Numbs() == uint64(n), "table has one boundary per shard")
-	for i := 1; i < n; i++ {
-		symx.Assert(r.nps[i-1] < r.nps[i], "boundaries strictly increasing")
-	}
-	symx.Assert(r.nps[n-1] == math.MaxUint64, "last boundary is MaxUint64 (covers the whole range)")
+	symx.Assert(r.Numbs() == uint64(n), "the configured shard count")
 	x := symx.Uint64("hash")
 	i := r.SearchIndex(x)
 	symx.Assert(i >= 0 && i < n, "index in [0, shards)")
+	symx.Assert(r.SearchIndex(x) == i, "deterministic")
+	y := symx.Uint64("hash2")
+	j := r.SearchIndex(y)
+	if x <= y {
+		symx.Assert(i <= j, "partition is monotone")
+	}
+	if n <= 7 {
+		for k := 0; k < n; k++ {
+			symx.Sat(i == k, "every shard receives some hash value")
+		}
+	}
+	// the table behind it (looked at after the first lookups, so that a table built on first use is there)
+	symx.Assert(len(r.nps) == n, "table has one boundary per shard")
+	for k := 1; k < n; k++ {
+		symx.Assert(r.nps[k-1] < r.nps[k], "boundaries strictly increasing")
+	}
+	symx.Assert(r.nps[n-1] == math.MaxUint64, "last boundary is MaxUint64 (covers the whole range)")
 	symx.Assert(x <= r.nps[i], "hash not above its shard's boundary")
 	if i > 0 {
 		symx.Assert(x > r.nps[i-1], "hash above the previous boundary (unique shard, monotone partition)")
-	}
-	y := symx.Uint64("hash2")
-	if x <= y {
-		symx.Assert(i <= r.SearchIndex(y), "partition is monotone")
 	}
 	symx.Reach("end")
 }
